@@ -120,7 +120,7 @@ def _gen_summary(ex, func, args, kwargs, so, node):
     for i, a in enumerate(args):
         b[names[i]] = a
     b.update(kwargs)
-    ex.emit("generator_call", node, bound=b)
+    ex.emit("generator_call", node, bound=b, func=func)
     q = sym("q")
     s = ex.mk("ivl_starts", shape=(q,), dtype="int")
     e = ex.mk("ivl_ends", shape=(q,), dtype="int")
@@ -192,9 +192,22 @@ def seeded_driver_checks(ctx, ex, paths, rets, m, n, drv, prop):
     gc = [e for e in p.events if e.kind == "generator_call"]
     if gc:
         b = gc[0].data["bound"]
-        vals = list(b.values())
-        okg = len(vals) >= 3 and isinstance(vals[0], Num) and nf_equal(vals[0].nf, n) and nf_equal(vals[1].nf, 2 * m) and nf_equal(vals[2].nf, sym("max_interval_length")) and (len(vals) < 4 or nf_equal(vals[3].nf, sym("growth_factor")))
-        ctx.check(okg, f"{prop}.e WIRING", "generator-arguments", gc[0].loc(), "intervals are generated for (n, min length 2m, max_interval_length, growth_factor)", found={k: valkey(v) for k, v in b.items()})
+        # bound BY NAME (the call may be positional or by keyword); every parameter of the generator must receive the
+        # driver's own quantity - a parameter left to its default silently ignores the detector's hyper-parameter
+        want_by_role = {"n": n, "min": 2 * m, "max": sym("max_interval_length"), "growth": sym("growth_factor")}
+        okg = True
+        missing = []
+        for prm in gc[0].data["func"].params:
+            role = "n" if prm == "n" else next((r for r in ("min", "max", "growth") if r in prm), None)
+            if role is None:
+                continue
+            v = b.get(prm)
+            if v is None:
+                missing.append(prm)
+                okg = False
+            elif not (isinstance(v, Num) and v.nf is not None and nf_equal(v.nf, want_by_role[role])):
+                okg = False
+        ctx.check(okg, f"{prop}.e WIRING", "generator-arguments", gc[0].loc(), "intervals are generated for (n, min length 2m, max_interval_length, growth_factor), each handed to the generator's parameter of that role", found=({"left to their defaults": missing} if missing else {k: valkey(v) for k, v in b.items()}))
     fits = [e for e in p.events if e.kind == "scorer_fit"]
     evs = loop_events(p, loop, "scorer_evaluate")
     if len(evs) != 1:
